@@ -2,6 +2,7 @@
 //!  (i)  job market under controlled schedules (`srh::market_h`): seeded random sequences, all sequences of
 //!       a small alphabet for K = 2, timeout scenarios;
 //!  (ii) whole checkers with real threads, each run in a child process with a watchdog (see `runs`).
+use srh::graph_big::*;
 use srh::market_h::*;
 use srh::out::*;
 use srh::rng::Rng;
@@ -133,13 +134,273 @@ fn market_part(out: &mut Out, thorough: bool, seed: u64) {
     }
 }
 
+
+// ---------------------------------------------------------------------------------------------
+// (ii) whole checkers, real threads, child processes
+// ---------------------------------------------------------------------------------------------
+#[derive(Clone, Copy, PartialEq, Debug)]
+enum Expect {
+    /// nothing stops the run early: evaluated set = closure, counts and discovered names determined
+    Complete,
+    /// a stop reason is configured: only schedule-independent bounds
+    Early,
+    /// model code panics at a reachable state: `join` must panic
+    Panic,
+    /// effectively unbounded model with a timeout
+    Timeout,
+    /// simulation where ONE worker panics: reported separately (see notes/C05.md)
+    SimOnePanics,
+}
+
+fn layered(layers: u64, width: u64, seed: u64, props: Vec<PropSpec>) -> ModelSpec {
+    ModelSpec { shape: Shape::Layered { layers, width, deg: 3, n_init: 3, oob_mod: 17 }, seed, props, panic_at: None, panic_thread: None }
+}
+fn p(exp: u8, m: u64, min_layer: u64) -> PropSpec {
+    PropSpec { exp, m, min_layer }
+}
+/// q0 is never discovered (so nothing ends the run early); q1 sometimes / q2 always are hit at rare deep
+/// states; q3 is an eventually property that never holds (every terminal state is a counterexample)
+fn props_full() -> Vec<PropSpec> {
+    vec![p(0, 0, 0), p(2, 4000, 6), p(0, 2500, 9), p(1, 0, 0)]
+}
+/// every property is discoverable: the run ends because everything is discovered
+fn props_alldisc() -> Vec<PropSpec> {
+    vec![p(2, 3000, 5), p(0, 2000, 8)]
+}
+
+fn describe(c: &RunCfg) -> String {
+    format!(
+        "{} threads={} fw={} target={:?} depth={:?} timeout={:?} perturb={} panic_seed={} model={:?}/seed{} sim_seed={}",
+        c.strategy, c.threads, c.finish_when.sx(), c.target_state_count, c.target_max_depth, c.timeout_ms, c.perturb,
+        c.panic_seed, c.model.shape, c.model.seed, c.sim_seed
+    )
+}
+
+fn build_runs(thorough: bool, rng: &mut Rng) -> Vec<(RunCfg, Expect)> {
+    let mut v: Vec<(RunCfg, Expect)> = vec![];
+    let threads: Vec<usize> = vec![1, 2, 3, 4, 8, 16];
+    let sizes: Vec<(u64, u64)> = if thorough { vec![(24, 400), (40, 1500), (50, 2000)] } else { vec![(24, 400), (36, 900)] };
+    let reps = if thorough { 2 } else { 1 };
+    for &(layers, width) in &sizes {
+        for strat in ["bfs", "dfs", "ondemand"] {
+            for &t in &threads {
+                for _ in 0..reps {
+                    let seed = 1 + rng.below(1_000_000) as u64;
+                    let perturb = if rng.chance(1, 5) { 0 } else { 1 + rng.next() % 1_000_000 };
+                    let base = |props: Vec<PropSpec>| {
+                        let mut c = RunCfg::new(layered(layers, width, seed, props), strat, t);
+                        c.perturb = perturb;
+                        c
+                    };
+                    // complete run
+                    v.push((base(props_full()), Expect::Complete));
+                    if width != sizes[0].1 && !thorough {
+                        continue;
+                    }
+                    // finish_when variants
+                    for (kind, names) in [("any", vec![]), ("anyf", vec![]), ("allf", vec![]), ("allof", vec![1usize, 3]), ("anyof", vec![1usize, 2])] {
+                        let mut c = base(props_full());
+                        c.finish_when = FwSpec { kind: kind.into(), names };
+                        v.push((c, Expect::Early));
+                    }
+                    // everything discovered
+                    v.push((base(props_alldisc()), Expect::Early));
+                    // targets
+                    let mut c = base(props_full());
+                    c.target_state_count = Some(3000 + rng.below(4000));
+                    v.push((c, Expect::Early));
+                    let mut c = base(props_full());
+                    c.target_max_depth = Some(6 + rng.below(8));
+                    v.push((c, Expect::Early));
+                    // panic at a seeded reachable state
+                    let mut c = base(props_full());
+                    c.panic_seed = 1 + rng.next() % 1000;
+                    v.push((c, Expect::Panic));
+                }
+            }
+        }
+    }
+    // timeouts on the effectively unbounded model (bfs / dfs / on-demand / simulation)
+    let bt = |spin: u64| ModelSpec { shape: Shape::BinTree { spin }, seed: 7, props: vec![p(0, 0, 0)], panic_at: None, panic_thread: None };
+    for strat in ["bfs", "dfs", "ondemand", "sim"] {
+        for &t in &threads {
+            if !thorough && (t == 3 || t == 16) {
+                continue;
+            }
+            let mut c = RunCfg::new(bt(400), strat, t);
+            c.timeout_ms = Some(200);
+            c.record = false;
+            c.closure_cap = 100;
+            c.perturb = 1 + rng.next() % 1000;
+            v.push((c, Expect::Timeout));
+        }
+    }
+    // simulation: finish_when, target, panic
+    for &t in &threads {
+        if !thorough && (t == 3 || t == 16) {
+            continue;
+        }
+        let seed = 1 + rng.below(1_000_000) as u64;
+        let sim_seed = rng.next() % 1000;
+        let small = |props: Vec<PropSpec>| {
+            let mut c = RunCfg::new(layered(12, 40, seed, props), "sim", t);
+            c.sim_seed = sim_seed;
+            c
+        };
+        for (kind, names) in [("any", vec![]), ("anyof", vec![1usize]), ("allof", vec![1usize, 3])] {
+            let mut c = small(vec![p(0, 0, 0), p(2, 40, 3), p(0, 30, 4), p(1, 0, 0)]);
+            c.finish_when = FwSpec { kind: kind.into(), names };
+            v.push((c, Expect::Early));
+        }
+        let mut c = small(vec![p(2, 40, 3), p(0, 30, 4)]);
+        c.finish_when = FwSpec::all();
+        v.push((c, Expect::Early));
+        let mut c = small(props_full());
+        c.target_state_count = Some(20_000);
+        v.push((c, Expect::Early));
+        // every trace runs into the panic state quickly (3 nodes per layer): every worker panics
+        let mut c = RunCfg::new(
+            ModelSpec { shape: Shape::Layered { layers: 8, width: 3, deg: 3, n_init: 1, oob_mod: 0 }, seed, props: vec![p(0, 0, 0)], panic_at: None, panic_thread: None },
+            "sim", t,
+        );
+        c.panic_seed = 1 + rng.next() % 1000;
+        c.target_state_count = Some(50_000_000);
+        v.push((c, Expect::Panic));
+        // ONE worker panics, the others have no reason of their own to stop before the (long) timeout
+        if t >= 2 {
+            let mut c = small(vec![p(0, 0, 0)]);
+            c.model.panic_thread = Some("checker-1".into());
+            c.timeout_ms = Some(30_000);
+            c.record = false;
+            v.push((c, Expect::SimOnePanics));
+        }
+    }
+    // one worker panics: bfs / dfs / on-demand must stop everybody (market closed by the unwinding Drop)
+    for strat in ["bfs", "dfs", "ondemand"] {
+        for &t in &[2usize, 4, 8] {
+            let mut c = RunCfg::new(layered(40, 1500, 5, vec![p(0, 0, 0)]), strat, t);
+            c.panic_seed = 1 + rng.next() % 1000;
+            c.perturb = 1 + rng.next() % 1000;
+            v.push((c, Expect::Panic));
+        }
+    }
+    v
+}
+
+fn runs_part(out: &mut Out, thorough: bool, rng: &mut Rng) {
+    let runs = build_runs(thorough, rng);
+    let cfgs: Vec<RunCfg> = runs.iter().map(|r| r.0.clone()).collect();
+    let watchdog = std::time::Duration::from_secs(arg_u64("--watchdog-s", 25));
+    let strict_sim_panic = std::env::args().any(|a| a == "--strict-sim-panic");
+    let results = run_all(&cfgs, watchdog, 16);
+    for ((cfg, exp), res) in runs.iter().zip(results.iter()) {
+        let d = describe(cfg);
+        out.stat(&format!("run-{}-{:?}", cfg.strategy, exp));
+        out.stat(&format!("run-threads-{}", cfg.threads));
+        out.distinct(&d);
+        let o = match res {
+            ChildResult::Hang(el) => {
+                if *exp == Expect::SimOnePanics {
+                    out.stat("FINDING-simulation-one-worker-panics-others-keep-running(join-blocked-past-watchdog)");
+                    out.sample(&format!("simulation, one worker panics, join still blocked after {:?}: {}", el, d));
+                    if strict_sim_panic {
+                        out.v("sim-panic-not-propagated", &format!("join did not return within {:?} after one simulation worker panicked: {}", el, d));
+                    }
+                } else {
+                    out.v("hang", &format!("join did not return within {:?}: {}", el, d));
+                }
+                continue;
+            }
+            ChildResult::Crash(e) => {
+                out.v("child-crash", &format!("{}: {}", e, d));
+                continue;
+            }
+            ChildResult::Done(o, _) => o,
+        };
+        if o.threads_evaluating >= 2 {
+            out.stat("runs-with->=2-threads-evaluating-states(work-was-split)");
+        }
+        if o.parks > 0 {
+            out.stat("runs-where-a-worker-parked");
+        }
+        if o.wakes > 0 {
+            out.stat("runs-where-a-parked-worker-woke");
+        }
+        out.stat_n("states-evaluated-total", o.visited as u64);
+        let mut bad: Vec<String> = vec![];
+        let is_sim = cfg.strategy == "sim";
+        if o.bad_paths > 0 {
+            bad.push(format!("{} visited paths are not model paths", o.bad_paths));
+        }
+        if o.visited_not_reachable > 0 {
+            bad.push(format!("{} evaluated states are not reachable", o.visited_not_reachable));
+        }
+        if !is_sim && o.dup_visits > 0 {
+            bad.push(format!("{} states evaluated more than once", o.dup_visits));
+        }
+        match exp {
+            Expect::Complete => {
+                if o.joined != "ok" {
+                    bad.push("join panicked".into());
+                }
+                if o.missing > 0 {
+                    bad.push(format!("{} reachable states never evaluated (closure {})", o.missing, o.closure));
+                }
+                if o.unique != o.closure {
+                    bad.push(format!("unique_state_count {} != closure {}", o.unique, o.closure));
+                }
+                let det: Vec<usize> = o.disc.iter().copied().filter(|i| !o.undetermined.contains(i)).collect();
+                if det != o.expected_disc {
+                    bad.push(format!("discovered {:?} but the single-threaded/closure result is {:?}", det, o.expected_disc));
+                }
+                if !o.is_done {
+                    bad.push("is_done() false after join".into());
+                }
+                out.sample(&format!("complete {}: closure={} visited={} threads_evaluating={} parks={} wakes={} disc={:?}", d, o.closure, o.visited, o.threads_evaluating, o.parks, o.wakes, o.disc));
+            }
+            Expect::Early | Expect::Timeout => {
+                if o.joined != "ok" {
+                    bad.push("join panicked".into());
+                }
+                if !is_sim && o.unique > o.closure && o.closure < cfg.closure_cap {
+                    bad.push(format!("unique_state_count {} > closure {}", o.unique, o.closure));
+                }
+                for i in &o.disc {
+                    if !o.expected_disc.contains(i) && !o.undetermined.contains(i) {
+                        bad.push(format!("property {} discovered although no reachable state witnesses it", i));
+                    }
+                }
+                if o.missing > 0 {
+                    out.stat("early-stop-runs-that-did-stop-early");
+                }
+            }
+            Expect::Panic => {
+                if o.joined != "panic" {
+                    bad.push(format!("model code panicked at reachable state {:?} but join returned normally", o.panic_state));
+                }
+            }
+            Expect::SimOnePanics => {
+                out.stat("simulation-one-worker-panics:join-returned-within-watchdog");
+            }
+        }
+        for b in bad {
+            out.v("run-mismatch", &format!("{}: {}", b, d));
+        }
+    }
+}
+
 fn main() {
+    maybe_child();
     quiet_panics();
     let mut out = Out::new();
     let th = thorough();
     let only = arg_str("--only");
     if only.as_deref().map(|s| s == "market").unwrap_or(true) {
         market_part(&mut out, th, seed());
+    }
+    if only.as_deref().map(|s| s == "runs").unwrap_or(true) {
+        let mut rng = Rng::new(seed() ^ 0x5151);
+        runs_part(&mut out, th, &mut rng);
     }
     out.finish();
 }
